@@ -69,8 +69,10 @@ CLAIMS.update({
                 "by the key concerned, thaw evicts only above high water and LRU-first, a full cache refuses insertion. The non-termination "
                 "defect (table could fill completely) was found by 'insert keeps a NULL slot' and repaired by a fix: commit.",
         "note": "Bounded in table size (4/8 slots; generalisation to 32768 by parametricity is stated, not proved); image create/composite/unref "
-                "are recording stubs. box32_intersect is a full-domain proof. Per-glyph drawing geometry and the ADD-accumulation equivalence "
-                "are NOT covered.",
+                "are recording stubs. box32_intersect and the pixman_composite_glyphs frame (mask format/size, component alpha iff alpha+colour, one "
+                "composite, one release, allocation failure draws nothing) are full-domain proofs. Drawing half: per-glyph geometry of "
+                "composite_glyphs_no_mask / add_glyphs / composite_glyphs (drawn rectangle = glyph box ∩ clip box, mask and source origins, the forced "
+                "COVER promise, lookup memo) with 1-2 glyphs and recording stubs for the lookup and the routines (bounded; pixels rest on C01/C02).",
     },
 })
 CLAIMS.update({
